@@ -388,6 +388,9 @@ func c07(c *Ctx) {
 	// no other quorum-like arithmetic: comparisons against len(x.Keys)*2/3 etc. are not searched (out of scope)
 	ep := c.Explorer()
 	ecq := must(ep.Func(pkgProcessor, "CalculateQuorum"), "pinned CalculateQuorum")
+	// the n the explorer feeds the threshold is the size of the set the VAA names only if position i of
+	// its guardian-set list holds the set with index i
+	c19indexAligned(c, ep, "C07.use-explorer-set")
 	n = 0
 	for _, s := range callsTo(ep, ecq) {
 		if !strings.HasPrefix(s.Fn.Pkg.Pkg.Path(), ExplorerMod) {
